@@ -32,6 +32,10 @@ def build(p):
   p.native('fed_avg.create_train_for_each_client', D, 'round')
   v_client(p)
   v_apply(p)
+  # a round depends on THIS round's (state, clients) only: no closure / module state survives between apply calls (weights
+  # looked up in a table that outlives the round would be the sizes of an earlier round)
+  from . import C10
+  C10.v_frames(p, files=['fedjax/algorithms/fed_avg.py'], min_sites=1)
   p.trust('for_each_client contract (C02): one (id, output) per input client in input order, output = '
           'final(shared, fold(step, init(shared, key), batches)), independent of the backend',
           'optimizers and grad_fn are pure functions (uninterpreted OPT_P/OPT_S/G); client ids pairwise distinct (C13 get.distinct)',
